@@ -233,10 +233,15 @@ def transposeChars (b : Buf) : Buf :=
 
 def isWordChar (c : Char) : Bool := c.isAlphanum || c = '_'
 
-/-- first match of `([a-zA-Z0-9_]+|[^a-zA-Z0-9_\s]+)` in `t`: `some end` (index after the run) -/
+/-- a character at which `([a-zA-Z0-9_]+|[^a-zA-Z0-9_\s]+)` cannot start a match: the regex tries
+    the word class FIRST, so only a non-word character that is `\s` is skipped -/
+def wordSkip (reSpace : Char → Bool) (c : Char) : Bool := !isWordChar c && reSpace c
+
+/-- first match of `([a-zA-Z0-9_]+|[^a-zA-Z0-9_\s]+)` in `t`: `some end` (index after the run).
+    The alternation is followed in the order of the regex: `[a-zA-Z0-9_]` is tested before `\s`. -/
 def firstWordEnd (reSpace : Char → Bool) (t : Text) : Option Nat :=
-  let skipped := t.takeWhile reSpace
-  match t.dropWhile reSpace with
+  let skipped := t.takeWhile (wordSkip reSpace)
+  match t.dropWhile (wordSkip reSpace) with
   | [] => none
   | c :: rest =>
     let run := if isWordChar c then rest.takeWhile isWordChar
